@@ -706,6 +706,39 @@ def oracle(sc, obs, res, case):
     ifaces = sc.get("ifaces", 1)
     close_enter = None  # event index at which the public close call in progress began
     close_idx = [j for j, x in enumerate(ev) if x[0] == "close"]
+    # the close calls as the scenario's ACTIONS: (event index, instant, was anything registered when the call began?) -- from the
+    # oracle's own registry, not from what the implementation then did
+    close_calls = []
+    names = set()
+    for j, x in enumerate(ev):
+        if x[0] in ("reg", "upd"):
+            names.add(x[4]["name"].lower())
+        elif x[0] == "unreg":
+            names.discard(x[4]["name"].lower())
+        elif x[0] == "allgen":
+            names.clear()
+        elif x[0] == "aclose" and x[3] == "enter":
+            close_calls.append((j, x[1], not names))
+
+    close_spans = []
+    for j, x in enumerate(ev):
+        if x[0] == "aclose" and x[3] == "enter":
+            close_spans.append((j, None))
+        elif x[0] == "aclose" and x[3] == "exit" and close_spans:
+            close_spans[-1] = (close_spans[-1][0], j)
+
+    def demanded(i, t):
+        """how many of the three goodbyes of a sequence started at event i, instant t, the known finding `goodbyes-cut-by-close` lets
+        the host drop -- decided from the ACTIONS: the sequence spans t .. t+250; a close call entered at te >= t sets `done` at te when
+        nothing is registered then, else after its own sequence (te+250); goodbyes due before `done` must leave.
+        Returns (minimum number that must be multicast, the close instant or None)."""
+        for (j, te, empty) in close_calls:
+            if j > i:
+                done_at = te if empty else te + 2 * GOODBYE
+                if done_at <= t + 2 * GOODBYE:
+                    return len([k for k in range(3) if t + k * GOODBYE < done_at]), te
+                return 3, None
+        return 3, None
 
     def recs_of(f, with_host):
         """identity tuples of the records of a service: (kind, lower name, type, rdata...)"""
@@ -817,14 +850,20 @@ def oracle(sc, obs, res, case):
                              "the goodbye task's %s step: that goodbye carries the new name, the unregistered name is not withdrawn"
                              % (f["name"], reused[0]["fields"]["name"], ["first", "second", "third"][gb.index(reused[0])])))
             elif len(sent) < 3:
-                cut = [j for j in close_idx if j > i and (len(gb) < 3 or j < gb[2]["j"])]
-                if cut:
-                    # KNOWN FINDING (C07:goodbyes-cut-by-close): `async_unregister_service` hands the goodbye task to the caller; an
-                    # application that closes the instance without awaiting it cuts the sequence (`done`: nothing is sent any more)
-                    viol.append(("C08:goodbyes-cut-by-close", "%s unregistered at +%d ms, the instance closed at +%d ms before the third goodbye: %d of 3 goodbyes were multicast"
-                                 % (f["name"], t - T0, ev[cut[0]][1] - T0, len(sent))))
+                need, te = demanded(i, t)
+                if any(cj < i and (xj is None or xj > i) for cj, xj in close_spans):
+                    # the unregister was called while a close call was already in progress: the close's own goodbye withdraws what was
+                    # registered when it began; this sequence is not judged
+                    res.count("unregister-during-close")
+                elif len(sent) >= need and need < 3:
+                    # KNOWN FINDING (= C07:goodbyes-cut-by-close), the input class decided from the scenario's actions: an explicit
+                    # `async_unregister_service` whose task is not awaited, and a close call that sets `done` within the 250 ms of its
+                    # sequence (entered < 250 ms later with nothing else registered): the goodbyes due from then on are dropped
+                    viol.append(("C08:goodbyes-cut-by-close", "%s unregistered at +%d ms (task not awaited), close called at +%d ms with %s: %d of 3 goodbyes were multicast (%d were due before done)"
+                                 % (f["name"], t - T0, te - T0, "nothing else registered" if te is not None else "?", len(sent), need)))
                 else:
-                    viol.append(("C08:goodbye-count", "%d goodbyes of %s were multicast after the unregister at +%d ms (at %r)" % (len(sent), f["name"], t - T0, [g["t"] - t for g in sent])))
+                    viol.append(("C08:goodbye-count", "%d of 3 goodbyes of %s were multicast after the unregister at +%d ms (at %r); %d were due before any close could set done"
+                                 % (len(sent), f["name"], t - T0, [g["t"] - t for g in sent], need)))
             if not reused:
                 for g in sent:
                     judge_goodbye(g["per"], want, f["name"], "C08:goodbye")
@@ -838,8 +877,9 @@ def oracle(sc, obs, res, case):
                                                  % (f["name"], r.priority, r.weight, r.port, r.server, f["priority"], f["weight"], f["port"], f["server"])))
                                 if isinstance(r, d.DNSText) and r.name.lower() == f["name"].lower() and r.text.hex() != f["text"]:
                                     viol.append(("C08:goodbye-content:wrong-txt", "goodbye TXT of %s differs from the service's" % f["name"]))
-            if len(sent) == 3:
-                obligations.append({"records": want, "from": sent[2]["last"], "ended": {}, "what": f["name"], "t3": sent[2]["t"], "names": {f["name"].lower()},
+            if sent and (len(sent) == 3 or demanded(i, t)[0] == 3):
+                # "once that sequence has completed": from the last goodbye that was sent (a sequence that a close cut is followed by silence)
+                obligations.append({"records": want, "from": sent[-1]["last"], "ended": {}, "what": f["name"], "t3": sent[-1]["t"], "names": {f["name"].lower()},
                                     "unreg": i, "gb_recs": [r for g in sent for dgs in g["per"].values() for data, _ in dgs for r in all_recs(data)]})
         elif k == "allgen" and e[3]:
             fs = [f for f, _ in reg.values()]
@@ -860,15 +900,15 @@ def oracle(sc, obs, res, case):
                     # the close call's own goodbyes: `_close` must come after them
                     viol.append(("C08:close-goodbyes-not-sent", "the close call at +%d ms generated the goodbye of %s but %d of 3 were multicast (done was set at %r)"
                                  % (t - T0, what, len(sent), [ev[j][1] - T0 for j in close_idx])))
-                elif [j for j in close_idx if j > i]:
-                    viol.append(("C08:goodbyes-cut-by-close", "async_unregister_all_services at +%d ms, the instance closed by another call before its third goodbye: %d of 3 were multicast"
-                                 % (t - T0, len(sent))))
+                elif len(sent) >= demanded(i, t)[0] and demanded(i, t)[0] < 3:
+                    viol.append(("C08:goodbyes-cut-by-close", "async_unregister_all_services at +%d ms, close called at +%d ms (done within the 250 ms of the sequence): %d of 3 were multicast (%d were due before done)"
+                                 % (t - T0, demanded(i, t)[1] - T0, len(sent), demanded(i, t)[0])))
                 else:
-                    viol.append(("C08:goodbye-all-count", "%d goodbyes of %s were multicast" % (len(sent), what)))
+                    viol.append(("C08:goodbye-all-count", "%d of 3 goodbyes of %s were multicast (%d were due before any close could set done)" % (len(sent), what, demanded(i, t)[0])))
             for g in sent:
                 judge_goodbye(g["per"], want, what, "C08:goodbye-all")
-            if len(sent) == 3:
-                obligations.append({"records": want, "from": sent[2]["last"], "ended": {}, "what": "all services", "t3": sent[2]["t"], "names": {f["name"].lower() for f in fs},
+            if sent and (len(sent) == 3 or (not e[5] and demanded(i, t)[0] == 3)):
+                obligations.append({"records": want, "from": sent[-1]["last"], "ended": {}, "what": "all services", "t3": sent[-1]["t"], "names": {f["name"].lower() for f in fs},
                                     "unreg": i, "gb_recs": [r for g in sent for dgs in g["per"].values() for data, _ in dgs for r in all_recs(data)]})
     # pass 2: after the third goodbye none of those records leaves with a non-zero TTL
     for ob in obligations:
@@ -944,6 +984,9 @@ def evaluate(sc, res, lines, pending):
         res.count("op:" + o["op"])
     if obs["errors"]:
         res.count("loop-errors")
+        # an exception that escapes a background task / timer callback into the loop's handler (a goodbye or announcement task that dies
+        # half-way looks like a short sequence otherwise): never on the unchanged tree
+        res.violate("C08:exception-in-event-loop", "an exception reached the event loop's handler: %s" % obs["errors"][0][:300], case)
     # non-trivial: a withdrawal while something was queued or a task was running
     sig = []
     pend_q = 0
